@@ -25,7 +25,7 @@ class C01(pure.Spec):
             "answer sent afterwards, both directions at once, close by the target, close by the local client, refusing "
             "target, target closing completely during an upload after having half-closed, a slow half-closed target receiving a 3 MB upload, and the two half-close orders in which the late direction must be delivered while the connection stays open), 1-5 concurrent connections, chunk sizes 0..200 kB (several windows); UDP remote and SOCKS5 UDP "
             "association (own or shared association, IPv4, IPv6 and domain-name headers, one client alternating between two targets), 1-4 concurrent clients, datagram sizes "
-            "0..8 kB. Observed: bytes received at both ends compared byte by byte with the peer's stream, how each side "
+            "0..8 kB; and slow UDP clients whose datagrams are 3 s and 23 s apart (around and beyond the 10 s after which both ends forget an idle UDP client: active clients must stay registered, forgotten ones must be registered again), run beside the other cases. Observed: bytes received at both ends compared byte by byte with the peer's stream, how each side "
             "saw the end (clean EOF / reset / still open after 6 s), per UDP client the replies that are its own, foreign "
             "or duplicate replies, the source address of replies, RFC 1928 header well-formedness, datagrams the target "
             "got. Compared exactly with what a direct connection shows (Tunnel/Direct.v); a UDP case whose only deviation is a "
@@ -55,6 +55,8 @@ class C01(pure.Spec):
                 shapes.append(str(t[i]))
                 i += 3 + nl + nt
             return "tcp/entry%d.%d/%s" % (t[2], t[3], "".join(sorted(set(shapes))))
+        if t[1] == 3:
+            return "udp-slow/entry%d/n%d/gap%ds" % (t[2], t[3], t[4] // 1000)
         return "udp/entry%d/shared%d/v%d/clients%d" % (t[2], t[3], t[4], t[5])
 
     def equal(self, case, impl, model):
@@ -64,7 +66,7 @@ class C01(pure.Spec):
             # an IPv6 variant on a machine without an IPv6 loopback: not run (its coverage cell is then absent)
             return True
         t = case.split()
-        if t[1] != "2":
+        if t[1] == "1":
             return False
         # UDP is allowed to lose a datagram under load (the tunnel drops rather than blocks, C11): a case whose only
         # deviation is a missing reply is re-run (up to twice); a systematic loss repeats, a transient one does not
@@ -97,6 +99,8 @@ class C01(pure.Spec):
                 a, b = i[k:k + 6], m[k:k + 6]
                 if a == b:
                     continue
+                if len(a) < 6 or len(b) < 6:
+                    break
                 if a[1] == 0 or a[4] == 0:
                     return True, "tcp-bytes-altered", "bytes arrived modified, reordered or beyond what the peer wrote (connection %d)" % (k // 6)
                 if a[0] != b[0] or a[3] != b[3]:
@@ -109,6 +113,8 @@ class C01(pure.Spec):
             a, b = i[k:k + 5], m[k:k + 5]
             if a == b:
                 continue
+            if len(a) < 5 or len(b) < 5:
+                break
             if a[1] != 0:
                 return True, "udp-misdelivered", "a UDP client received a reply that is not its own (or a duplicate)"
             if a[2] == 0:
@@ -122,6 +128,8 @@ class C01(pure.Spec):
         t = [int(x) for x in case.split()]
         if t[1] == 1:
             return "TCP via %s (variant %d), %d connection(s): %s" % (ENTRY.get(t[2]), t[3], t[4], t[5:60])
+        if t[1] == 3:
+            return "one slow UDP client via %s: %d datagrams %d ms apart" % ("UDP remote" if t[2] == 0 else "SOCKS5 UDP association", t[3], t[4])
         return "UDP via %s, shared association %d, header variant %d, %d client(s): %s" % (
             "UDP remote" if t[2] == 0 else "SOCKS5 UDP association", t[3], t[4], t[5], t[6:60])
 
